@@ -10,18 +10,18 @@ from harness import e1, gen
 from harness.build import scratch_build, MachineryError
 from harness.common import Run, phash, load_known, VERIF
 
-FIXTURES = sorted(glob.glob("/repo/tests/data/*.tjp"))
+FIXTURES = sorted(glob.glob(os.path.join(os.environ.get("VERIF_REPO", "/repo"), "tests/data/*.tjp")))
 
 # profile name, quick count, thorough count
 PLAN = {
     "C01": [("chain_subslot", 70, 2500), ("teams_alts", 30, 1000), ("alap_profile", 20, 800)],
     "C02": [("calendars", 90, 3500), ("dst_weekend", 40, 1500)],
-    "C03": [("chain_subslot", 50, 2000), ("teams_alts", 50, 2000), ("alap_profile", 20, 800)],
-    "C04": [("dags", 100, 4000), ("alap_profile", 20, 800), ("container_gate", 15, 600)],
-    "C05": [("limits_profile", 90, 3500)],
-    "C06": [("chain_subslot", 50, 1500), ("alap_profile", 40, 1500), ("dags", 20, 800)],
+    "C03": [("chain_subslot", 50, 2000), ("teams_alts", 50, 2000), ("alap_profile", 20, 800), ("limits_profile", 40, 1500)],
+    "C04": [("dags", 100, 4000), ("alap_profile", 20, 800), ("container_gate", 15, 600), ("dup_leaf_ids", 15, 600), ("dup_alap", 15, 600)],
+    "C05": [("limits_profile", 110, 4000)],
+    "C06": [("chain_subslot", 60, 2000), ("alap_profile", 40, 1500), ("dags", 20, 800)],
     "C07": [("core_dialect", 110, 5000), ("container_gate", 25, 1000)],
-    "C08": [("core_dialect", 60, 2500), ("alap_profile", 40, 1500), ("calendars", 20, 1000)],
+    "C08": [("core_dialect", 60, 2500), ("alap_profile", 40, 1500), ("calendars", 20, 1000), ("dup_alap", 20, 800)],
     "C10": [("trees", 60, 2500), ("dags", 30, 1200)],
 }
 
@@ -184,6 +184,16 @@ def check(prop, tier, replay=None):
         for r in bad_status:
             if r.get("status") in ("lost",):
                 raise MachineryError("runner lost job %s: %s" % (r["id"], r.get("error")))
+            if r.get("status") == "crash" and r.get("phase") in ("extract", "runner"):
+                raise MachineryError("model extraction failed in the runner for %s:\n%s" % (r["id"], r.get("error", "")[-600:]))
+        unobserved = [r["id"] for r in recs if "project" not in r]
+        if unobserved:
+            # generated inputs are valid by construction and fixtures are accepted on the unchanged tree: a run that
+            # leaves no trace cannot be judged for this property (C11 is the property that judges rejections / crashes)
+            run.notes["runs_without_trace"] = unobserved[:10]
+            if not replay and len(unobserved) > len(recs) // 10:
+                raise MachineryError("%d of %d runs produced no trace (first: %s %s)" % (
+                    len(unobserved), len(recs), unobserved[0], [r.get("error", "")[-300:] for r in recs if r["id"] == unobserved[0]]))
         drift = 0
         for r in recs:
             ok, msg = e1.hooks_complete(r)
